@@ -38,6 +38,10 @@
 EXTENDS Integers, Sequences, FiniteSets, TLC, Json
 
 CONSTANTS Rule,        \* "code" | "naive" | "proposed" | "fixed"
+          StoreRead,   \* how GetLatestInfoUntilBlock reads the store: "snapshot" (one read transaction, the code) | "tworeads"
+                       \* (a design TLC refutes, OracleTwoReads.cfg: last processed block and newest leaf read separately, the
+                       \* newest leaf taken without a block filter when the block asked for is the last processed one - the syncer
+                       \* can commit blocks in between)
           Treadmill,   \* BOOLEAN, see above
           Record,      \* BOOLEAN: keep the behaviour history (export runs only)
           MaxBlock, MaxLeaves, Gers,
@@ -155,12 +159,13 @@ CellOnError(err, t) ==
     [] Rule = "proposed" -> IF err = "notprocessed" THEN t ELSE target
     [] Rule = "fixed"    -> IF err = "notprocessed" THEN t ELSE 0
 
-TickOut(r, cell, newl2, t, g, f) ==
-  /\ Commit([Cur EXCEPT !.target = cell, !.l2 = newl2],
+TickOutS(r, cell, newl2, t, g, f, s2) ==
+  /\ Commit([Cur EXCEPT !.target = cell, !.l2 = newl2, !.S = s2],
             [res |-> r, t |-> t, g |-> g, was |-> g \in l2],
             [a |-> "tick", fail |-> f, res |-> r, cell |-> cell])
   /\ fails' = IF f = "none" THEN fails ELSE fails + 1
   /\ UNCHANGED <<dirty, reorgs, exts>>
+TickOut(r, cell, newl2, t, g, f) == TickOutS(r, cell, newl2, t, g, f, S)
 
 Tick ==
   LET t   == IF target = 0 THEN F ELSE target                   \* getLastFinalizedGER: sample only when the cell is 0
@@ -177,6 +182,12 @@ Tick ==
   \/ /\ ans = "leaf" /\ g \in l2              /\ TickOut("present", 0, l2, t, g, "none")
   \/ /\ ans = "leaf" /\ g \notin l2 /\ canFail /\ TickOut("err_inject", 0, l2, t, g, "inject")
   \/ /\ ans = "leaf" /\ g \notin l2           /\ TickOut("inject", 0, l2 \cup {g}, t, g, "none")
+  \* the refuted design: two separate reads, the syncer commits up to block s2 between them
+  \/ /\ StoreRead = "tworeads" /\ ans = "leaf" /\ S = t /\ dirty = 0
+     /\ \E s2 \in (S + 1)..H :
+          LET g2 == LatestGer(s2) IN
+          \/ g2 \in l2    /\ TickOutS("present", 0, l2, t, g2, "none", s2)
+          \/ g2 \notin l2 /\ TickOutS("inject", 0, l2 \cup {g2}, t, g2, "none", s2)
 
 SyncStep     == \E to \in 1..MaxBlock : Sync(to)
 SyncFailStep == \E to \in 1..MaxBlock : SyncFail(to)
